@@ -332,6 +332,27 @@ def sorted_then_sequences(full):
             p = ("un", ops[o], mp.DEFAULT, p)
         if ok:
             out.append(p)
+    # the same over a UNION ALL of two tables (the sort keys are all distinct, so windows are determined): every
+    # sequence of up to two operations, and the longer ones that hold a window followed by a projection
+    leafa = ("leaf", 3, SQL, [a, b, c], [{a: 1, b: 2, c: 3}, {a: 4, b: 2, c: 1}, {a: 0, b: 5, c: 2}], (0, None))
+    leaf2 = ("leaf", 2, SQL, [a, b, c], [{a: 2, b: 2, c: 5}, {a: 3, b: 1, c: 4}], (0, None))
+    for i, q in enumerate(seqs):
+        if not (len(q) <= 2 or (len(q) == 3 and (has_sub(q, ("S", "P1")) or has_sub(q, ("S", "P2"))))):
+            continue
+        for terms in ([(("ref", a), True)], [(("ref", c), False)]):      # a sort the projections keep / drop
+            p, cur, ok = ("un", ("sort", terms), mp.DEFAULT, ("chain", leafa, leaf2)), {a, b, c}, True
+            for o in q:
+                if o in ("P2", "P1"):
+                    ok &= set(ops[o][1]) <= cur
+                    cur = set(ops[o][1])
+                elif o == "C":
+                    ok &= a in cur and n1 not in cur
+                    cur = cur | {n1}
+                elif o == "F":
+                    ok &= a in cur
+                p = ("un", ops[o], mp.DEFAULT, p)
+            if ok:
+                out.append(p)
     return out
 
 
